@@ -186,6 +186,10 @@ def matches_finding(kf, prop, rec):
     return True
 
 
+MAX_TASK_PATHS = int(os.environ.get("PYVC_MAX_TASK_PATHS", "6000"))
+MAX_TASK_CPU_S = float(os.environ.get("PYVC_MAX_TASK_CPU_S", "2400"))
+
+
 def run_property(prop, tier="quick", workers=None, extra=None):
     t0 = time.time()
     seed = int(os.environ.get("VERIF_SEED", "0") or 0)
@@ -203,6 +207,7 @@ def run_property(prop, tier="quick", workers=None, extra=None):
         # Work stealing by re-submission: a worker explores its subtree for one time slice and hands the
         # unexplored decision prefixes back; they are re-queued (split in two) so that all cores stay busy.
         merged = {}
+        budget = {}
         with cf.ProcessPoolExecutor(max_workers=workers) as ex:
             pending = {ex.submit(run_task, j): j for j in jobs}
             while pending:
@@ -214,6 +219,15 @@ def run_property(prop, tier="quick", workers=None, extra=None):
                     except Exception as e:  # pylint: disable=broad-except
                         r = {"task": str(j[0]), "config": j[2], "obligations": [], "undecided": [], "errors": [[str(j[0]), f"worker failed: {e}"]], "paths": 0}
                     left = r.pop("leftover", None) or []
+                    key0 = (j[0], j[1], json.dumps(j[2], sort_keys=True))
+                    spent = budget.setdefault(key0, [0, 0.0])
+                    spent[0] += r.get("paths") or 0
+                    spent[1] += r.get("wall") or 0.0
+                    if left and (spent[0] > MAX_TASK_PATHS or spent[1] > MAX_TASK_CPU_S):
+                        # the exploration of this task does not converge (e.g. a loop that lost its contract):
+                        # stop feeding it, report it as undecided
+                        r.setdefault("undecided", []).append([r.get("name") or str(j[0]), f"exploration budget exceeded ({spent[0]} paths, {spent[1]:.0f} s of exploration); unexplored paths remain"])
+                        left = []
                     if left:
                         half = max(1, len(left) // 2)
                         for chunk in (left[:half], left[half:]):
